@@ -167,6 +167,11 @@ class Interp:
         self.backedge_check = backedge_check
         from . import models as _m
         _m.install(self)
+        sm = {}
+        for k in self.models:
+            if isinstance(k, tuple):
+                sm.setdefault(k[0], set()).add(k[1])
+        self.prog.synthetic_methods = sm
 
     # ------------------------------------------------------------------ types / constants
     def zero(self, t):
